@@ -625,10 +625,10 @@ def c06_simultaneous_case(ctx, seed, attempt=0):
 
 def c06_scenarios(ctx):
     rng = random.Random(ctx.seed * 13 + 606)
-    seeds = [rng.randint(1, 10 ** 9) for _ in range(48 if ctx.tier == "quick" else 1200)]
+    seeds = [rng.randint(1, 10 ** 9) for _ in range(48 if ctx.tier == "quick" else 400)]
     from .checks.c07 import safe
     parallel(lambda s: safe(ctx, c06_case, ctx, s), seeds, workers=8)
-    seeds2 = [rng.randint(1, 10 ** 9) for _ in range(24 if ctx.tier == "quick" else 500)]
+    seeds2 = [rng.randint(1, 10 ** 9) for _ in range(24 if ctx.tier == "quick" else 160)]
     parallel(lambda s: safe(ctx, c06_simultaneous_case, ctx, s), seeds2, workers=6)
 
 
@@ -694,7 +694,10 @@ def c08_case(ctx, seed):
         ctx.evaluations += 1
         ctx.count("e2e_log_%s" % scenario)
         if scenario in ("dropped-on-disk", "dropped-deleted"):
-            victim = sc["stmts"].pop(rng.randrange(len(sc["stmts"])))
+            # (not the generator statement: its output is an input of others, which could not be built without it)
+            used = {i_ for s_ in sc["stmts"] for i_ in s_["ins"]}
+            cand = [k_ for k_, s_ in enumerate(sc["stmts"]) if not (set(s_["outs"]) & used)]
+            victim = sc["stmts"].pop(rng.choice(cand))
             vo = victim["outs"][0]
             t.install(sc)
             if scenario == "dropped-deleted":
